@@ -164,6 +164,8 @@ def check(ctx):
     symmetry.check_side_symmetry(ctx)
     symmetry.check_transpose_complete(ctx)
     patterns.check_state_written_only_when_initialising(ctx)
+    vectors.check_imputer_vector_width(ctx)
+    ctx.floor('A21w', 4, 'eager imputers')
     ctx.floor('A13i', 8, 'writes of pattern-encoder state')
     ctx.floor('A23t', 2, 'transposed copies (settings, existence pattern)')
     ctx.floor('A12', 20, 'registered encoder / imputer classes')
@@ -175,6 +177,10 @@ from ..selftest import V  # noqa: E402
 
 PP = 'optimization/assign_enc/patterns/patterns.py'
 VARIANTS = [
+    V('closest-imputer-compares-full-width', 'optimization/assign_enc/eager/imputation/closest.py',
+      [("np.array(vector)[:design_vectors.shape[1]]", "np.array(vector)")], key='A21w'),
+    V('delta-imputer-keys-full-width', 'optimization/assign_enc/eager/imputation/delta.py',
+      [("        vector = np.array(vector)[:n_dv]\n", "")], key='A21w'),
     V('pattern-state-overwritten-by-later-pattern', 'optimization/assign_enc/patterns/patterns.py',
       [("                if not _set_check('surjective', n_min_conn[0] == 1):\n                    return False\n                return True", "                if n_min_conn[0] == 1:\n                    self.surjective = True\n                return True")], key='A13i'),
     V('transpose-drops-parallel-limit', 'optimization/assign_enc/matrix.py',
